@@ -50,8 +50,21 @@ def model_result(res):
             "data": np.array([unbits(e) for e in data], dtype=np.float64) if data else np.zeros((0, 1))}
 
 
-def compare(ctx, name, level, impl, model, case, theorem, sig, scale=1.0):
-    """three points: accepted / refused, shape, entries"""
+def compare(ctx, name, level, impl, model, case, theorem, sig, scale=1.0, one_value_ok=False):
+    """three points: accepted / refused, shape, entries.
+    level "property": a call form of the property's quantifier; "aux": an intermediate (gamma / pi ...) on a form of the quantifier;
+    "info": a call form OUTSIDE the quantifier (mixed ranks, rank-3, unequal batches, one-flag quirks of the decorator) - third audit B-15:
+    for those not only accepted / refused but ALSO the result shape and the entries are unconstrained (a per-position-flag decorator fix or
+    an up-front rank check keeps the property), so all three are recorded with ctx.info and never judged."""
+    if level == "info":
+        same = ctx.info(name + ": accepted / refused (form outside the quantifier)", impl["refused"], model["refused"])
+        if same and not impl["refused"]:
+            shp = [int(x) if not isinstance(x, str) else x for x in impl["shape"]]
+            if ctx.info(name + ": result shape (form outside the quantifier)", shp, model["shape"]):
+                a, b = np.asarray(impl["data"], dtype=np.float64).ravel(), np.asarray(model["data"], dtype=np.float64).ravel()
+                ctx.info(name + ": entries (form outside the quantifier)", True,
+                         bool(a.shape == b.shape and np.allclose(a, b, rtol=1e-9, atol=1e-9 * scale, equal_nan=True)))
+        return
     if level == "aux" and impl["refused"] != model["refused"]:
         # whether a call form OUTSIDE the property's quantifier (mixed ranks, rank-3, unequal batches) is accepted or refused is not
         # constrained: recorded, no verdict (a rewrite that accepts more forms, or refuses earlier, keeps the property)
@@ -61,7 +74,12 @@ def compare(ctx, name, level, impl, model, case, theorem, sig, scale=1.0):
                    "refused" if model["refused"] else "accepted", case, exact=True, theorem=theorem, sig=sig + "/outcome")
     if not ok or impl["refused"]:
         return
-    ok = ctx.point(name + ": result shape", level, [int(x) if not isinstance(x, str) else x for x in impl["shape"]], model["shape"], case,
-                   exact=True, theorem=theorem, sig=sig + "/shape")
+    shp = [int(x) if not isinstance(x, str) else x for x in impl["shape"]]
+    if one_value_ok and model["shape"] == [] and shp != [] and all(isinstance(x, int) for x in shp) and int(np.prod(shp)) == 1:
+        # vector form: whether the one value comes back as () or (1,) is not constrained (sibling docstrings say "(b,) or (1,)"): recorded only
+        ctx.info(name + ": result shape () for the vector form", shp, [])
+        ok = True
+    else:
+        ok = ctx.point(name + ": result shape", level, shp, model["shape"], case, exact=True, theorem=theorem, sig=sig + "/shape")
     if ok:
         ctx.point(name + ": entries", level, impl["data"].ravel(), model["data"].ravel(), case, scale=scale, theorem=theorem, sig=sig + "/entries")
